@@ -14,7 +14,7 @@ use super::Parser;
 use crate::{
     IdentName,
     index::Idx,
-    ir::{self, FieldKind, Item, Path, TyKind},
+    ir::{self, FieldKind, Item, TyKind},
     symbol::{EnumRepr, FileId, Ident},
     tags::{
         PilotaName, Tags,
@@ -246,12 +246,11 @@ impl Lower {
                         name: FastStr::new(d.name()).into(),
                         id: -1,
                         ty: ir::Ty {
-                            kind: ir::TyKind::Path(Path {
-                                segments: Arc::from([
-                                    FastStr::new(message.name()).into(),
-                                    FastStr::new(d.name()).into(),
-                                ]),
-                            }),
+                            // qualified from the root like every other type name of the file:
+                            // <package>.<enclosing messages>.<message>.<oneof>
+                            kind: ir::TyKind::Path(
+                                self.str2path(&format!("{}.{}", &fq_message_name[1..], d.name())),
+                            ),
                             tags: Default::default(),
                         },
                         tags: Arc::new(crate::tags!(OneOf)),
